@@ -266,7 +266,11 @@ def case(rec, pvl, dialect, key):
         # a name that is not an ODL parameter name: the encoder must refuse;
         # if it writes the label anyway the scanner's name rule sees it
         bad = rng.choice(("A_NAME_THAT_IS_LONGER_THAN_30_CHARS", "a-b", "1a", "a_",
-                          "a.b", "ns:", "^", "a b", "x:y:z", "A2345678901234567890123456789_31"))
+                          "a.b", "ns:", "^", "a b", "x:y:z", "A2345678901234567890123456789_31",
+                          # letters that str.upper() turns into ASCII (ß -> SS,
+                          # ı -> I, ſ -> S, ﬁ -> FI): no ODL identifiers
+                          "ma\xdfstab", "\u0131d", "\u017fize", "\ufb01le",
+                          "MASS_OF_THE_SPACECRAFT_IN_GRO\xdf"))
         if rng.random() < 0.4:
             # names around the 30-character limit, plain, as a ^pointer and
             # with a namespace: 29 and 30 characters are legal, 31 is not
